@@ -9,6 +9,36 @@ NOTE = ("Trusted: Coq 8.16.1 kernel (vm_compute; no native_compute); no axioms (
         "for the failing-input search only. ")
 
 CLAIMED = {
+ "C01": ("Theorems for all terms (literals, variables, proper/improper lists, compounds), all prior substitutions and all fuel: on success "
+         "the solutions of the answer are exactly the unifiers consistent with the prior bindings (soundness, most general), the answer "
+         "extends the prior substitution by the reported extension; on failure no consistent unifier exists (clashes, arity, occurs check by a "
+         "size argument). Fuel exhaustion is a third, separate outcome.",
+         "6/C01", "Coq proof: solution-set characterisation of unification (sound, most general, complete) + exhaustive small-scope differential correspondence",
+         "Not proved: success implies that a finite unifier exists (acyclicity/idempotent closure of the answer) and fuel adequacy; both are observed on every case (walk* of both sides finite and identical)."),
+ "C02": ("Theorems: posting u != v stores a constraint that holds exactly when u and v differ (or nothing / failure in the two decided "
+         "cases); re-checking after a unification keeps an equivalent constraint, drops only satisfied ones and fails only on violated "
+         "ones; subsumption is implication; normalisation preserves the meaning of the store; the store's meaning is order-free.",
+         "6/C02", "Coq proof: denotation of disequality posting, re-check, subsumption and normalisation + differential correspondence + ground-instance oracle",
+         "The lift to whole programs (answers' ground instances = program's ground solutions) is checked by the ground oracle over a finite universe, not proved."),
+ "C03": ("Theorems: reported constraints mention only reified variables of the answer; constraints() returns exactly the reported "
+         "constraints with an operand among the any-variables occurring anywhere in the term (lists and compounds included); reification only "
+         "adds bindings to new any-variables.",
+         "6/C03", "Coq proof: structural lemmas of purify / anyvars / reify + per-answer structural oracle on the implementation",
+         "Injectivity of reification across query variables is checked on every answer, not proved."),
+ "C04": ("PARTIAL. Proved: permuting the clauses of a disjunction permutes its admissible answers; two equalities (and two disequalities) "
+         "posted in either order yield the same solutions and no order fails spuriously. The bijection between answer multisets of whole "
+         "reordered programs is checked (all permutations of small conjunctions, FD posting orders), not proved.",
+         "6/C04", "Coq proof of order-freedom at the store/disjunction level + permutation-group oracle on the implementation",
+         "Whole-program bag equivalence under conjunction reordering is not proved."),
+ "C12": ("PARTIAL. Proved: the goal everyg solves is the conjunction (from_array) of the instantiated bodies in reverse order, and an empty "
+         "collection succeeds exactly once with the state unchanged. That conjunct order does not matter is C04.",
+         "6/C12", "Coq proof: everyg = reversed conjunction, empty case + for-vs-explicit-conjunction oracle on the implementation",
+         "Depends on C04 for order-insensitivity of conjunction."),
+ "C22": ("Theorems: #with_constraint = #take_constraint + store size is preserved by every state operation (unify, disunify, posting and "
+         "re-running every constraint kind, domains, normalisation with dropped constraints), for all fuel; a successful unification logs "
+         "exactly one extension event carrying exactly its new bindings.",
+         "6/C22", "Coq proof: hook-balance invariant over all state operations + instrumented-User differential run with probes",
+         "The invariant is proved per state operation; its lift over stream construction is immediate (states are passed unchanged) but not mechanised."),
  "C05": ("Theorems over the stream model: everything the engine delivers is admissible for the reference stream semantics, in which "
          "depth-first disjunction is concatenation in clause order and depth-first conjunction is the list-monad bind (all sizes, depths, "
          "fuel). Tied to the code by a step-exact differential run (answer sequence and engine-step count per answer).",
